@@ -96,7 +96,7 @@ package account
 // AccountDB.MarkAccountObjectDirty of its database (installed by newAccountObject), trusted as such.
 
 //@ ghost acct (Array Int (Array (Array (_ BitVec 64) (_ BitVec 8)) Int))
-//@ spec fn registered(db Int, a common.Address) Int = @select(@select(ghost(acct), db), a)
+//@ spec macro fn registered(db Int, a common.Address) Int = @select(@select(ghost(acct), db), a)
 
 //@ func AccountDB.getAccountObject
 //@   option trusted
